@@ -212,6 +212,9 @@ func TestVerifC07(t *testing.T) {
 				for _, a := range res.tolds {
 					w.emit(a)
 				}
+				for _, a := range res.modes {
+					w.emit(a)
+				}
 			}
 			meta.emit(map[string]any{"scn": sc2.ID, "scenario": sc2})
 		}
